@@ -31,12 +31,16 @@ func parProgram(t *rapid.T, inserts bool) (*concProgram, int) {
 	tasks := rapid.IntRange(2, 8).Draw(t, "tasks")
 	blocks := rapid.IntRange(1, 3).Draw(t, "blocks")
 	init := buildConcInit(blocks, 8)
-	cfg := concGenCfg{Tasks: tasks, MinTxns: 4, MaxTxns: rapid.SampledFrom([]int{6, 12, 30}).Draw(t, "max-txns"), Deletes: true, Inserts: inserts, Puts: true}
+	cfg := concGenCfg{Tasks: tasks, MinTxns: 4, MaxTxns: rapid.SampledFrom([]int{6, 12, 30}).Draw(t, "max-txns"), Deletes: true, Inserts: inserts, Puts: true, Aborts: true}
 	if inserts && rapid.IntRange(0, 3).Draw(t, "dense-layout") == 0 {
 		init = buildConcInitDense(8)
 	}
 	if rapid.IntRange(0, 4).Draw(t, "one-block-txns") == 0 {
 		cfg.OneBlock = true
+	}
+	if inserts && rapid.IntRange(0, 3).Draw(t, "abort-heavy") == 0 {
+		cfg.AbortHeavy = true
+		cfg.MaxTxns = 30
 	}
 	p := genConcProgram(t, init, cfg)
 	return p, rapid.SampledFrom([]int{1, 1024, 16385}).Draw(t, "capacity")
